@@ -218,8 +218,14 @@ type cutInfo struct {
 // prefix of cmds into a fresh model, checking the checkpoint/data invariant at every cut position.
 func checkCuts(base, cmds [][][]byte, sc c03Script, c incrConf, want []applied, startOffset int64, ckName string) (cutsInfo []cutInfo, groups int, sig, msg string) {
 	ends := map[int64]bool{startOffset: true}
+	srcDBAt := map[int64]int{startOffset: sc.startDB} // database selected on the source right after each command
+	cur := sc.startDB
 	for _, s := range sc.st.cmds {
 		ends[startOffset+s.end] = true
+		if s.name() == "select" && len(s.argv) == 2 {
+			cur, _ = strconv.Atoi(string(s.argv[1]))
+		}
+		srcDBAt[startOffset+s.end] = cur
 	}
 	sim := mredis.New()
 	cs := sim.NewConnState()
@@ -257,6 +263,11 @@ func checkCuts(base, cmds [][][]byte, sc c03Script, c incrConf, want []applied, 
 		if ck.found {
 			if !ends[ck.offset] {
 				sig, msg = "cut:offset-not-a-command-boundary", fmt.Sprintf("%s: stored offset %d is not a source position right after a command", where, ck.offset)
+				return
+			}
+			if d, ok := srcDBAt[ck.offset]; ok && d >= 0 && !c.filt.dbPass(d) {
+				// a run resumed from here would not know that a filtered database is selected on the source
+				sig, msg = "cut:checkpoint-inside-filtered-db", fmt.Sprintf("%s: the stored offset %d lies where the source has the filtered database %d selected; nothing is forwarded there, so no checkpoint can point there", where, ck.offset, d)
 				return
 			}
 			if !ck.hasRun || ck.runid != c04RunID || !ck.hasVer {
